@@ -8,7 +8,7 @@ pub uninterp spec fn @f@_val(a: @F@) -> int;
 pub uninterp spec fn @f@_of(v: int) -> @F@;
 // canonical representation: equal value <=> equal element (proved for the wrappers: limbs are reduced)
 pub broadcast axiom fn @f@_canon(a: @F@)
-    ensures #[trigger] @f@_of(@f@_val(a)) == a, 0 <= #[trigger] @f@_val(a) < @f@_p();
+    ensures @f@_of(#[trigger] @f@_val(a)) == a, 0 <= @f@_val(a) < @f@_p();
 pub broadcast axiom fn @f@_canon2(v: int)
     requires 0 <= v < @f@_p()
     ensures #[trigger] @f@_val(@f@_of(v)) == v;
